@@ -178,6 +178,10 @@ pub struct Obs {
     pub points: AtomicU64,
     pub parked: [AtomicU64; 4], // by role: number of threads currently inside park
     pub in_exec: AtomicU64,
+    /// execution attempts begun in this run (livelock cut-off of the watchdog)
+    pub exec_begins: AtomicU64,
+    /// number of finality + commit publications in this run
+    pub progress_marks: AtomicU64,
     /// live scheduler threads by role (index 1 worker, 2 finality, 3 commit)
     pub alive: [AtomicU64; 4],
     fin_examined: Vec<AtomicU64>,
@@ -220,6 +224,8 @@ pub fn obs() -> &'static Obs {
         points: AtomicU64::new(0),
         parked: [AtomicU64::new(0), AtomicU64::new(0), AtomicU64::new(0), AtomicU64::new(0)],
         in_exec: AtomicU64::new(0),
+        exec_begins: AtomicU64::new(0),
+        progress_marks: AtomicU64::new(0),
         alive: [AtomicU64::new(0), AtomicU64::new(0), AtomicU64::new(0), AtomicU64::new(0)],
         fin_examined: (0..MAX_TX).map(|_| AtomicU64::new(0)).collect(),
         rewinds: AtomicU64::new(0),
@@ -285,6 +291,8 @@ impl Obs {
         self.spins.store(0, Relaxed);
         self.points.store(0, Relaxed);
         self.in_exec.store(0, Relaxed);
+        self.exec_begins.store(0, Relaxed);
+        self.progress_marks.store(0, Relaxed);
         for p in &self.parked {
             p.store(0, Relaxed);
         }
@@ -508,6 +516,7 @@ impl Hooks for Obs {
             }
             Event::CommitPublished { idx } => {
                 self.commit_published.store(idx, Relaxed);
+                self.progress_marks.fetch_add(1, Relaxed);
             }
             Event::Notify { .. } => {
                 self.notifies.fetch_add(1, Relaxed);
@@ -523,6 +532,10 @@ impl Hooks for Obs {
             }
             Event::ExecBegin { .. } => {
                 self.in_exec.fetch_add(1, Relaxed);
+                self.exec_begins.fetch_add(1, Relaxed);
+            }
+            Event::Finality { .. } => {
+                self.progress_marks.fetch_add(1, Relaxed);
             }
             Event::ExecEnd { .. } => {
                 self.in_exec.fetch_sub(1, Relaxed);
